@@ -302,6 +302,13 @@ def fmtItem (o : CmOpts) (ep : Bool) (pl : NList) (ownStart : Nat) (entering : B
   else
     ({ st with prefix_ := st.prefix_.take (if st.prefix_.length > mw then st.prefix_.length - mw else 0) }).cr
 
+/-- `format_front_matter` after the payload: a lone CR at its end ends a line just as LF does
+    (repaired in /repo: the writer's line state was reset only after LF). -/
+def fmEnd (fm : Bytes) (st : St) : St :=
+  if fm.getLast? == some 0x0D then
+    { st with column := 0, beginLine := true, beginContent := true, lastBreakable := 0 }
+  else st
+
 def isBlockV (v : NodeValue) : Bool := v.kind.isBlock
 
 /-- The `entering = true` call of `format_node`; the Boolean is its return value (descend?). -/
@@ -313,7 +320,7 @@ def enter (o : CmOpts) (cx : Ctx) (v : NodeValue) (cs : Forest) (st0 : St) : St 
   let w := wr o ep
   match v with
   | .document => (st, true)
-  | .frontMatter fm => (output o ep st fm false .literal, true)
+  | .frontMatter fm => (fmEnd fm (output o ep st fm false .literal), true)
   | .blockQuote | .multilineBlockQuote .. =>
     let st := w [0x3E, 0x20] st
     ({ st with beginContent := true, prefix_ := st.prefix_ ++ [0x3E, 0x20] }, true)
